@@ -162,7 +162,7 @@ pub fn run_case(args: &[&str]) -> Option<String> {
         sh.lock().unwrap().waiting_for_input = false;
         let r = catch(|| task.as_mut().poll(&mut cx));
         match r {
-            Err(_) => { fin = "PANIC"; break; }
+            Err(_) => { fin = if sh.lock().map(|s| s.spun).unwrap_or_else(|e| e.into_inner().spun) { "SPIN" } else { "PANIC" }; break; }
             Ok(Poll::Ready(())) => { fin = "RET"; break; }
             Ok(Poll::Pending) => {
                 if flag.0.load(Ordering::SeqCst) { poll_no += 1; continue; }
